@@ -34,6 +34,9 @@ pub struct PhysMem {
     /// stale memory without a single word that looks PRESENT (bit 0 clear everywhere, never zero):
     /// arrays of aligned pointers, 0xaa fills ...
     pub even_garbage: bool,
+    /// stale memory in which about a quarter of the words are zero (a former sparse table, a
+    /// partly cleared buffer): zero words in front of live-looking ones
+    pub sparse_garbage: bool,
 }
 
 unsafe impl Send for PhysMem {}
@@ -74,12 +77,19 @@ impl PhysMem {
                 return 0;
             }
         }
+        if self.sparse_hole(self.garbage_seed, frame_no, idx) {
+            return 0;
+        }
         let g = garbage_word(self.garbage_seed, frame_no, idx);
         if self.even_garbage {
             let e = g & !1;
             return if e == 0 { 0xaaaa_aaaa_aaaa_aaa0 } else { e };
         }
         g
+    }
+
+    fn sparse_hole(&self, seed: u64, frame_no: u64, idx: usize) -> bool {
+        self.sparse_garbage && mix2(seed ^ 0x5a5a_0f0f_3c3c_9999, frame_no.wrapping_mul(512).wrapping_add(idx as u64)) & 3 == 0
     }
 
     pub fn new() -> PhysMem {
@@ -102,7 +112,7 @@ impl PhysMem {
             if arena == libc::MAP_FAILED {
                 die("arena mmap");
             }
-            PhysMem { fd, arena: arena as *mut u8, slots: BTreeMap::new(), next_slot: 0, garbage_seed: 0, zero_data: None, even_garbage: false }
+            PhysMem { fd, arena: arena as *mut u8, slots: BTreeMap::new(), next_slot: 0, garbage_seed: 0, zero_data: None, even_garbage: false, sparse_garbage: false }
         }
     }
 
@@ -231,8 +241,16 @@ impl PhysMem {
         let p = self.commit(pa) as *mut u64;
         unsafe {
             for i in 0..512 {
-                let g = garbage_word(self.garbage_seed ^ salt.wrapping_mul(0xA24B_AED4_963E_E407), fno, i);
-                p.add(i).write_volatile(if self.even_garbage { (g & !1) | 0x10 } else { g });
+                let sd = self.garbage_seed ^ salt.wrapping_mul(0xA24B_AED4_963E_E407);
+                let g = garbage_word(sd, fno, i);
+                let w = if self.sparse_hole(sd, fno, i) {
+                    0
+                } else if self.even_garbage {
+                    (g & !1) | 0x10
+                } else {
+                    g
+                };
+                p.add(i).write_volatile(w);
             }
         }
     }
